@@ -355,6 +355,16 @@ func init() {
 			// numbers that are RECORD formats inside samples (flow: 1001 switch, 1002 router; counter: 4 vg, 5 vlan, 1001 processor):
 			// the filter is about sample types only and must not reach into the samples it lets through
 			{1001}, {1002}, {1001, 1002}, {5}, {4, 1001}, {2, 1001, 1002}}
+		// long lists: the listed standard type is the last of 16, 17, 33, 64, 257 entries
+		for _, L := range []int{16, 17, 33, 64, 257} {
+			for _, last := range []uint32{1, 2} {
+				var f []uint32
+				for i := 0; i < L-1; i++ {
+					f = append(f, uint32(100+i))
+				}
+				filters = append(filters, append(f, last))
+			}
+		}
 		n := uint64(len(al) + 1)
 		dims := mck.Radix{n, n, n, uint64(len(filters))}
 		return mck.FuncSpace{N: dims.Size(), F: func(idx uint64, c *mck.Ctx) {
@@ -377,6 +387,9 @@ func init() {
 			f := filters[d[3]]
 			dg := baseDG(false, ss...)
 			desc := fmt.Sprintf("%s | filter %v", strings.Join(names, " ; "), f)
+			if len(f) > 4 {
+				desc = fmt.Sprintf("%s | filter of %d entries 100.. ending in %d", strings.Join(names, " ; "), len(f), f[len(f)-1])
+			}
 			got, wire := runSF(c, dg, f, desc)
 			if got == nil {
 				return
@@ -398,7 +411,11 @@ func init() {
 			if p, m := sfh.Diff("", got, base); p != "" {
 				c.Violation("sflow:filter:differential:"+p, m, describeSF(desc, wire, f, nil)())
 			}
-			c.Outcome(fmt.Sprintf("filter=%v", f))
+			if len(f) > 4 {
+				c.Outcome(fmt.Sprintf("filter of %d entries ending in %d", len(f), f[len(f)-1]))
+			} else {
+				c.Outcome(fmt.Sprintf("filter=%v", f))
+			}
 		}}
 	}
 }
